@@ -720,7 +720,44 @@ def hkdf_expand(chk):
             chk.ok(R, inst, src)
         else:
             chk.violation(R, inst, src, 'the HMAC calls are %s, RFC 5869 gives %s' % (seq, want), key='%s %d' % (R, c))
-    chk.floor('hkdf blocks', n, 5)
+    # ---- the copy out of the current block: min(dig_len - ptr, out_len) bytes from buf + ptr, and the read position advances by that much
+    phis = [F.insts[o['v']] for i, o in oblig.dbg_values(F, 'out_len') if o['k'] == 'i' and F.insts[o['v']]['op'] == 'phi']
+    if not phis:
+        raise AnalysisBroken('%s: loop variable out_len not identified' % fn)
+    for p0, want_len in ((10, 5), (10, 100), (0, 32), (15, 9)):
+        clen = min(DL - p0, want_len)
+        hy = [dict(kind='assume', n=first('ptr')['n'], ty=first('ptr')['ty'], pred='eq', value=p0), dict(kind='pin', n=phis[0]['n'], value=want_len)]
+        hy += [dict(kind='pin', n=l['n'], value=DL) for l in U.field_loads(fn, 0, f['dig_len'][0], f['dig_len'][1])]
+        Fo = U.optimise(fn, hy, NI)
+        cps, pst = [], []
+        for i in sorted(fold._reach_insts(Fo), key=lambda i: i['id']):
+            if i['op'] == 'call' and (i.get('callee') or '').startswith('llvm.memcpy'):
+                sb, so = Fo.addr_of(i['ops'][1])
+                if sb == {'k': 'a', 'v': 0}:
+                    cps.append((so - f['buf'][0] if so is not None else None, i['ops'][2].get('v') if i['ops'][2]['k'] == 'c' else None))
+            elif i['op'] == 'store':
+                b, o = Fo.addr_of(i['ops'][1])
+                if b == {'k': 'a', 'v': 0} and o == f['ptr'][0]:
+                    v = i['ops'][0]
+                    if v['k'] == 'c':
+                        pst.append(v['v'])
+                    elif v['k'] == 'i' and Fo.insts[v['v']]['op'] == 'add':
+                        # position re-read after the copy (the copy may alias it) plus a constant
+                        ops = Fo.insts[v['v']]['ops']
+                        cst = [q['v'] for q in ops if q['k'] == 'c']
+                        lds = [q for q in ops if q['k'] == 'i' and Fo.insts[q['v']]['op'] == 'load' and
+                               Fo.addr_of(Fo.insts[q['v']]['ops'][0]) == ({'k': 'a', 'v': 0}, f['ptr'][0])]
+                        pst.append(p0 + cst[0] if len(cst) == 1 and len(lds) == 1 else None)
+                    else:
+                        pst.append(None)
+        n += 1
+        inst = '%s: %d bytes wanted at position %d of the block => %d bytes copied from buf + %d, position becomes %d' % (fn, want_len, p0, clen, p0, p0 + clen)
+        if cps[:1] == [(p0, clen)] and pst[:1] == [p0 + clen]:
+            chk.ok(R, inst, src)
+        else:
+            chk.violation(R, inst, src, 'copies (offset in buf, count) = %s, position stored = %s: output requested in several calls differs from one call'
+                          % (cps[:2], pst[:2]), key='%s copy %d %d' % (R, p0, want_len))
+    chk.floor('hkdf blocks', n, 9)
 
 
 def run(tier):
